@@ -362,4 +362,6 @@ def run(src, tier, seed):
                     res.bad(r, 'uninitialised-use:%s' % fx.rel(u), fx.rel(u), 'clang reports a definite uninitialised use: %s' % warns[0][:200], warns[:6])
                 else:
                     res.ok(r, fx.rel(u))
+    import fmtrule
+    fmtrule.format_rule(fx, res)
     return res
